@@ -172,6 +172,14 @@ def handleSxg (op : String) (args : List String) : Option String :=
       | some m => pure s!"ok {toHex m}"
       | none => pure "err"
     | _ => none
+  | "sxg.mi" => do
+    let (e, rest) ← parseExchange args
+    match rest with
+    | [rs] =>
+      match miEncodePayload sha e (← rs.toNat?) with
+      | some e' => pure s!"ok {showExchange e'}"
+      | none => pure "err"
+    | _ => none
   | "sxg.sign.mock" => do
     let (e, rest) ← parseExchange args
     match rest with
@@ -179,8 +187,9 @@ def handleSxg (op : String) (args : List String) : Option String :=
       let certDer ← ofHex cert
       let certSha := sha certDer
       let vurl ← ofHex vu
-      let date ← parseInt d
-      let exp ← parseInt x
+      -- "sec" or "sec:nsec": `Time.Unix()` of `time.Unix(sec, nsec)` with 0 ≤ nsec < 10^9 is `sec`
+      let date ← parseInt ((d.splitOn ":").headD "")
+      let exp ← parseInt ((x.splitOn ":").headD "")
       match signedMessage e (some certSha) vurl date exp with
       | none => pure "err"
       | some msg =>
